@@ -1299,6 +1299,12 @@ impl DbInner {
 				let dirty_logs = self.log.num_dirty_logs();
 				if !validation_mode {
 					while self.log.num_dirty_logs() > max_logs {
+						if self.shutdown.load(Ordering::SeqCst) {
+							// The cleanup worker exits on shutdown without a last pass; waiting for
+							// it here would block for ever. All logs are reclaimed when the handle
+							// is dropped.
+							break
+						}
 						log::debug!(target: "parity-db", "Waiting for log cleanup. Queued: {}", dirty_logs);
 						self.cleanup_queue_wait.wait();
 					}
@@ -1365,6 +1371,7 @@ impl DbInner {
 		self.log_worker_wait.signal();
 		self.commit_worker_wait.signal();
 		self.cleanup_worker_wait.signal();
+		self.cleanup_queue_wait.signal();
 	}
 
 	fn kill_logs(&self, db: &Arc<DbInner>) -> Result<()> {
